@@ -8,4 +8,10 @@ CHECKS = {
         "note": "meshes are small structured meshes (orders 1-3); for >12 (14) dofs only subsets of a sub-alphabet are enumerated; reference model is harness python",
     },
 }
+CHECKS["C20"] = {
+    "engine": "E-BFS",
+    "technique": "explicit-state BFS over writer call sequences on the real VTKWriter, independent VTK parser as oracle",
+    "text": "All sequences of VTKWriter calls (17-action alphabet: nodal/cell field adds of every field type and several data types, add_sphere, add_contact_edges, write) up to depth 4 (quick) / 5 (thorough) on 6-8 meshes (orders 1-4 and node-renumbered order 2/3 meshes), de-duplicated on a canonical state; every written file is parsed by an independent strict legacy-VTK parser and compared with a model of what was supplied (counts, index ranges, one record per entity, geometric cell identity, exact value round trip, byte-identical consecutive writes). Reaches combinations and call orders (spheres + rewrite, cell data + contact edges, renumbered high-order meshes) that the 6 existing tests never exercise; found and fixed four defects.",
+    "note": "parser and model are harness python; straight-sided small meshes; depth bound; canon merges histories with equal model state, capped write count and equal model state at last write",
+}
 NOT_APPLICABLE_REASON = {}
